@@ -172,6 +172,10 @@ pub trait Engine: Sync {
     fn model_request(&self, case: &str) -> Option<String> {
         Some(case.to_string())
     }
+    /// do the implementation's and the model's answers agree? (default: verbatim equality)
+    fn same(&self, impl_out: &str, model_out: &str) -> bool {
+        impl_out == model_out
+    }
     /// description of the part of the space that is enumerated completely, if any
     fn exhaustive_part(&self) -> Option<String> {
         None
@@ -288,7 +292,7 @@ fn run_one(engine: &dyn Engine, model: &mut Option<Model>, case: &str, rep: &mut
     if let (Some(req), Some(model)) = (engine.model_request(case), model.as_mut()) {
         let m = model.ask(&req);
         rep.model_compared += 1;
-        if m != r.out {
+        if !engine.same(&r.out, &m) {
             rep.failure_count += 1;
             rep.failures.push(Failure {
                 kind: "impl-vs-model",
@@ -397,7 +401,7 @@ pub fn run_engine(engine: &dyn Engine, cfg: &Cfg) -> Report {
                     r.oracle.iter().any(|(cl, _)| *cl == class)
                 } else {
                     match (engine.model_request(c), model.lock().unwrap().as_mut()) {
-                        (Some(req), Some(m)) => m.ask(&req) != r.out,
+                        (Some(req), Some(m)) => !engine.same(&r.out, &m.ask(&req)),
                         _ => false,
                     }
                 }
